@@ -14,7 +14,7 @@ from mc.netlist import NL, STYLES, build
 PROP = 'C01'
 LEVEL = 'exploration'
 RULE = ('cases = (netlist AST from families T1 single gate/T2 two-gate/T3 structural/T4 deep shapes) x build style x '
-        'mode (full truth table in one batch | k clock cycles | batch window); every case simulates ALL 2^(I+S) '
+        'mode (full truth table in one batch, half of the netlists through c_prop with an observing callback | k clock cycles | batch window); every case simulates ALL 2^(I+S) '
         '0/1 assignments; distinct_nontrivial = number of distinct (structure-hash, observed output truth tables) '
         'signatures among cases whose outputs are not all constant')
 ASSUMPTIONS = [
@@ -117,7 +117,12 @@ def check_case(res, case, verbose=False):
                 for k in range(nI): lsim.assign2(sim, ipos[k], in_vals[k], n)
                 for k in range(nS): lsim.assign2(sim, spos[k], st_vals[k], n)
                 res.count('tt_with_history')
-            sim.s_to_c(); sim.c_prop(); sim.c_to_s()
+            if ((common.h64(case['nl']) >> 1) & 1) ^ (case['style'] & 1 if case['fam'] == 't1' else 0):      # single gates: both loops, by style
+                # a callback that only looks at the values selects the simulator's second 2-valued evaluation loop: same function
+                sim.s_to_c(); sim.c_prop(inject_cb=lambda line, values: None); sim.c_to_s()
+                res.count('tt_with_observer_callback')
+            else:
+                sim.s_to_c(); sim.c_prop(); sim.c_to_s()
             v = nl.eval2(in_vals, st_vals, mask)
             sigparts = []
             for j, o in enumerate(nl.outs):
@@ -188,7 +193,7 @@ def check_case(res, case, verbose=False):
 
 
 def finish(agg, tier):
-    need = ['with_unconnected_pin', 'with_dangling_gate', 'cycle_runs', 'batch_runs', 'tt_with_history']
+    need = ['with_unconnected_pin', 'with_dangling_gate', 'cycle_runs', 'batch_runs', 'tt_with_history', 'tt_with_observer_callback']
     missing = [k for k in need if agg.counters.get(k, 0) == 0]
     if missing:
         raise common.HarnessError(f'vacuity guard: counters {missing} are zero')
